@@ -151,13 +151,17 @@ def fresh_value(repo: Repo, chk: Check, f: Func, ps: t.Any, tree: t.Optional[ast
         call = t.cast(ast.Call, base)
         chk.ob("O1", site, True, f"{what} = {ps.text(call)}: OS entropy drawn during this call")
         unit = ENTROPY[name]
-        a = call.args[0] if call.args else None
+        from .recipe import canon_text
+        from .util import args_of
+
+        amap = args_of(repo, f, call, {"os.urandom": ["size"], "secrets.token_bytes": ["nbytes"]}.get(name, ["bit_length"]))
+        a = next(iter(amap.values()), None)
         if isinstance(want, int):
             okf, v = repo.try_fold(a, f.mod) if a is not None else (False, None)
             w = want * 8 if unit == "bits" else want
             chk.ob("O2", site, bool(okf and v == w), f"{ps.text(call)}: {v if okf else ps.text(a)} {unit}, required {w}")
         else:
-            chk.ob("O2", site, a is not None and ps.text(a) == want, f"{ps.text(call)}: size {ps.text(a)}, required {want}")
+            chk.ob("O2", site, a is not None and canon_text(ps.text(a)) == canon_text(want), f"{ps.text(call)}: size {ps.text(a)}, required {want}")
         return True
     if isinstance(base, ast.Call) and depth < 3:
         from .util import signature
